@@ -219,7 +219,7 @@ func runSync(name string) (rec sRec) {
 	}
 	defer b.Close()
 	site = "Connect(B->A)"
-	cctx, ccancel := context.WithTimeout(context.Background(), 3*time.Second)
+	cctx, ccancel := context.WithTimeout(context.Background(), scaled(3*time.Second))
 	err = b.Connect(cctx, a)
 	ccancel()
 	if err != nil {
@@ -237,8 +237,8 @@ func runSync(name string) (rec sRec) {
 			real[sc.endpoint](nullWriter{}, &p2p.Request{ID: "direct", Procedure: sc.endpoint, Data: nil, PeerID: b.ID()})
 			continue
 		}
-		ctx, cancel := context.WithTimeout(context.Background(), 2*time.Second)
-		_, err := b.Request(ctx, a.ID(), sc.endpoint, data, 800*time.Millisecond)
+		ctx, cancel := context.WithTimeout(context.Background(), scaled(2*time.Second))
+		_, err := b.Request(ctx, a.ID(), sc.endpoint, data, scaled(800*time.Millisecond))
 		cancel()
 		obs.LastErr = errStr(err)
 		if err == nil || (len(obs.LastErr) > 6 && obs.LastErr[:6] == "other:") {
